@@ -443,13 +443,24 @@ impl Sim {
             None => errs.push((vec!["C03"], format!("client{ci}: update tick {u} is not a tick the server replicated to it"))),
             Some(x) => {
                 let mut placeholders = 0;
+                let mut early_mapped = 0;
                 let have: BTreeSet<Entity> = to_client
                     .iter()
-                    .filter(|(_, ce)| match c.app.world().get_entity(**ce) {
+                    .filter(|(s, ce)| match c.app.world().get_entity(**ce) {
                         Ok(w) => {
                             let h = Self::client_holds(&w);
                             if !h {
                                 placeholders += 1;
+                            }
+                            // a pre-spawned entity whose mapping arrived before the server entity became
+                            // visible carries the marker only; it is not yet "held" replicated state
+                            if h && !x.contains_key(*s)
+                                && !w.contains::<ConfirmHistory>()
+                                && !has_any_kind(&w)
+                                && c.pre_ever.contains(&(**s, **ce))
+                            {
+                                early_mapped += 1;
+                                return false;
                             }
                             h
                         }
@@ -457,6 +468,7 @@ impl Sim {
                     })
                     .map(|(s, _)| *s)
                     .collect();
+                self.obs.add("early_mapped_prespawns_seen", early_mapped);
                 self.obs.add("bare_placeholders_seen", placeholders);
                 let want: BTreeSet<Entity> = x.keys().copied().collect();
                 self.obs.add("c03_entities_compared", want.len() as u64);
